@@ -17,7 +17,7 @@ import random
 import numpy as np
 
 from .. import behaviours, fixtures, tlc, tracecheck
-from ..common import MachineryFailure, scratch, seed
+from ..common import MachineryFailure, scratch, seed, time_limited
 
 SITE = "sigpyproc.io.fileio.FileReader"
 
@@ -89,19 +89,21 @@ class Stream:
     def seek(self, off, whence):
         exc = None
         try:
-            self.f.seek(off, whence)
-        except Exception as e:  # noqa: BLE001
+            with time_limited(30):
+                self.f.seek(off, whence)
+        except Exception as e:  # noqa: BLE001   (a CallTimeout is not an Exception: it ends the driver, see ./check)
             exc = e
         self.events.append({"op": "seek", "whence": whence, "off": off, "outcome": _oc(exc), "pos": self.pos()})
 
     def cread(self, n):
         exc, out = None, []
         try:
-            arr = self.f.cread(n)
+            with time_limited(30):
+                arr = self.f.cread(n)
             out = [int(x) for x in arr] if self.nbits < 8 else list(arr.tobytes())
             if self._stale(arr):
                 exc = RuntimeError("an array returned by an earlier read changed")
-        except Exception as e:  # noqa: BLE001
+        except Exception as e:  # noqa: BLE001   (a CallTimeout is not an Exception: it ends the driver, see ./check)
             exc = e
         self.events.append({"op": "cread", "n": n, "outcome": _oc(exc), "out": out, "pos": self.pos()})
 
@@ -110,9 +112,10 @@ class Stream:
         buf = bytearray(n)
         ubuf = bytearray(n * (8 // self.nbits)) if self.nbits < 8 else None
         try:
-            ret = self.f.creadinto(buf, ubuf)
+            with time_limited(30):
+                ret = self.f.creadinto(buf, ubuf)
             out = list(buf[:ret])
-        except Exception as e:  # noqa: BLE001
+        except Exception as e:  # noqa: BLE001   (a CallTimeout is not an Exception: it ends the driver, see ./check)
             exc = e
         self.events.append({"op": "creadinto", "n": n, "outcome": _oc(exc), "ret": int(ret), "out": out,
                             "pos": self.pos()})
@@ -120,14 +123,15 @@ class Stream:
     def read_block(self, s, k):
         exc, out, shape = None, [], []
         try:
-            blk = self.fil.read_block(s, k)
+            with time_limited(30):
+                blk = self.fil.read_block(s, k)
             a = np.asarray(blk.data)
             shape = [int(x) for x in a.shape]
             if not np.all(a == np.round(a)):
                 out = [[-1]]
             else:
                 out = [[int(x) for x in row] for row in a]
-        except Exception as e:  # noqa: BLE001
+        except Exception as e:  # noqa: BLE001   (a CallTimeout is not an Exception: it ends the driver, see ./check)
             exc = e
         self.events.append({"op": "read_block", "s": s, "k": k, "outcome": _oc(exc), "out": out, "shape": shape,
                             "pos": self.pos()})
